@@ -167,10 +167,12 @@ def handleTraverse : Sexp → Option Sexp
         match es with
         | [] => []
         | e :: rest =>
-          if aware != "true" && e.hasList then depErrToSexp .unhashable :: go rest seen
+          -- a counter instance is not used again after it raised (its seen-set is then in an
+          -- intermediate state): the history stops at the first error
+          if aware != "true" && e.hasList then [depErrToSexp .unhashable]
           else match flopsG (aware == "true") e seen with
             | .ok (n, seen') => Sexp.ofNat n :: go rest seen'
-            | .error err => depErrToSexp err :: go rest seen
+            | .error err => [depErrToSexp err]
       some (.list (go es []))
     | none => some (bad "flops")
   | _ => none
